@@ -4,6 +4,7 @@
     observed history (application actions, transport-ready, sender steps) and the frames written vs Setup.crun;
 (c) SETUP / RESUME frames fed to a real server (lease publisher or not, on_setup raising or not) -> on_setup calls and
     ERROR frames vs Setup.server_decision."""
+from harness import internals
 import asyncio
 from datetime import timedelta
 
@@ -126,7 +127,7 @@ def run_order(script, provider_suspends, connect_suspends, lenreq):
 
             def do():
                 for a in acts:
-                    if not hasattr(c, '_send_queue'):
+                    if not internals.has_send_queue(c):
                         continue
                     counter[0] += 1
                     n = counter[0]
@@ -141,7 +142,7 @@ def run_order(script, provider_suspends, connect_suspends, lenreq):
             done = []
             loop.run(do)
             # what the library did during this tick, then the application action (it ran last)
-            if not ready and c._next_transport.done():
+            if not ready and internals.next_transport(c).done():
                 ready = True
                 labels.append('ready')
             while seen < len(t.sent):
